@@ -229,6 +229,16 @@ fn primary(pf: &[&'static str]) -> &'static str {
     "plain"
 }
 
+fn primary_with_signature(pf: &[&'static str]) -> String {
+    let p = primary(pf);
+    if p == "same-key-object-fields-with-variable-conditional-children" {
+        let sig = LAST_SIG.with(|s| s.borrow().clone());
+        format!("{p}{sig}")
+    } else {
+        p.to_string()
+    }
+}
+
 // ---------------------------------------------------------------- member enumeration (C02)
 
 pub struct Enum<'w> {
@@ -306,7 +316,63 @@ impl Enum<'_> {
 // ---------------------------------------------------------------- classification
 
 /// features of the fields that contribute to the response path `path` (narrow cores)
+/// Ordered signature of a group of same-key object selections: per occurrence (in document order)
+/// the variable conditions on it and on its direct children (variables numbered by first appearance).
+/// Known findings about merged selections are matched on it, so that a change which breaks a
+/// *different* arrangement of the same feature class is still reported.
+fn merge_signature(fields: &[&Sel]) -> String {
+    fn cond(ds: &[Dir], vars: &mut Vec<String>) -> String {
+        let mut out = String::new();
+        for d in ds {
+            if d.name.s == "skip" || d.name.s == "include" {
+                if let Some(Value::Var(_, v)) = d.args.as_ref().and_then(|a| a.items.first().map(|x| &x.1)) {
+                    let k = match vars.iter().position(|x| x == v) {
+                        Some(k) => k,
+                        None => {
+                            vars.push(v.clone());
+                            vars.len() - 1
+                        }
+                    };
+                    out.push_str(&format!("{}{k}", if d.name.s == "skip" { "s" } else { "i" }));
+                }
+            }
+        }
+        if out.is_empty() { "-".into() } else { out }
+    }
+    fn children(s: &SelSet, vars: &mut Vec<String>) -> String {
+        let mut set: Vec<String> = vec![];
+        for it in &s.items {
+            let d = match it {
+                Sel::Field { dirs, .. } | Sel::Spread { dirs, .. } => cond(dirs, vars),
+                Sel::Inline { dirs, sel, .. } => format!("{}{{{}}}", cond(dirs, vars), children(sel, vars)),
+            };
+            if !set.contains(&d) {
+                set.push(d);
+            }
+        }
+        set.join(",")
+    }
+    let mut vars = vec![];
+    let mut out = String::new();
+    for f in fields {
+        if let Sel::Field { dirs, sel, .. } = f {
+            let own = cond(dirs, &mut vars);
+            match sel {
+                Some(x) => out.push_str(&format!("[{own}:{}]", children(x, &mut vars))),
+                None => out.push_str(&format!("[{own}]")),
+            }
+        }
+    }
+    out
+}
+
+thread_local! {
+    /// signature of the deepest same-key group met by the last `path_features` call on this thread
+    static LAST_SIG: std::cell::RefCell<String> = const { std::cell::RefCell::new(String::new()) };
+}
+
 fn path_features(doc: &ExecDoc, root: &SelSet, path: &[String]) -> Vec<&'static str> {
+    LAST_SIG.with(|s| s.borrow_mut().clear());
     let frags = frag_map(doc);
     fn gather<'a>(s: &'a SelSet, key: &str, frags: &BTreeMap<String, (&'a Name, &'a SelSet)>, out: &mut Vec<&'a Sel>, via_fragment: &mut bool, seen: &mut BTreeSet<String>) {
         for it in &s.items {
@@ -373,6 +439,8 @@ fn path_features(doc: &ExecDoc, root: &SelSet, path: &[String]) -> Vec<&'static 
                 tags.insert("same-key-leaf-fields");
             } else if next.iter().any(|x| conditional_children(x)) {
                 tags.insert("same-key-object-fields-with-variable-conditional-children");
+                let sig = merge_signature(&fields);
+                LAST_SIG.with(|s| *s.borrow_mut() = sig);
             } else {
                 tags.insert("same-key-object-fields");
             }
@@ -514,7 +582,7 @@ fn check_doc(prop: &str, rep: &Reporter, sch: &Sch, doc: &ExecDoc, text: &str, c
                                 Ok(false) => {
                                     let path = loaded.world.explain(&r, &ty);
                                     let pf = path_features(doc, sel, &path);
-                                    let ftag = primary(&pf);
+                                    let ftag = primary_with_signature(&pf);
                                     rep.report(Violation {
                                         key: format!("not_admitted[{ftag}]"),
                                         what: format!("a spec-conformant response of the {what} is not a member of {alias}"),
@@ -553,7 +621,7 @@ fn check_doc(prop: &str, rep: &Reporter, sch: &Sch, doc: &ExecDoc, text: &str, c
                 if !ok {
                     let path = deepest_ref_failure(&mut r, m, &parents, sel);
                     let pf = path_features(doc, sel, &path);
-                    let ftag = primary(&pf);
+                    let ftag = primary_with_signature(&pf);
                     rep.report(Violation {
                         key: format!("admits_impossible[{ftag}]"),
                         what: format!("{alias} admits a value no execution of the {what} can return"),
